@@ -948,7 +948,8 @@ MergePorts::MergePorts(std::initializer_list<const rtosc::Ports*> c)
 bool port_is_enabled(const Port* port, char* loc, size_t loc_size,
                      const Ports& base, void *runtime,
                      bool relative_to_parent,
-                     port_walker_t walker, void* data)
+                     port_walker_t walker, void* data,
+                     void *port_runtime = nullptr)
 {
     // TODO: this code should be improved
     if(port && runtime)
@@ -976,6 +977,9 @@ bool port_is_enabled(const Port* port, char* loc, size_t loc_size,
             assert(!strchr(ask_port_str, '/'));
             const Port* ask_port = ask_ports[ask_port_str];
             assert(ask_port);
+            // a port inside the sub-tree belongs to the sub-tree's own object
+            void* ask_runtime = (subport && port_runtime) ? port_runtime
+                                                          : runtime;
 
             rtosc_arg_val_t rval;
 
@@ -1002,7 +1006,7 @@ bool port_is_enabled(const Port* port, char* loc, size_t loc_size,
             fast_strcpy(buf, last_slash ? last_slash + 1 : collapsed_loc,
                         loc_size); // TODO: bug: VoicePar#8/Enabled
 
-            helpers::get_value_from_runtime(runtime,
+            helpers::get_value_from_runtime(ask_runtime,
                 *ask_port, loc_size, collapsed_loc, buf,
                 8192, 1, &rval, nullptr);
             assert(rval.type == 'T' || rval.type == 'F' || rval.type == 'i');
@@ -1023,7 +1027,8 @@ bool port_is_enabled(const Port* port, char* loc, size_t loc_size,
                 //            abc/enable
                 //
                 const char* old_end = loc_copy + loclen + 3;
-                walker(ask_port, collapsed_loc, old_end, base, data, runtime);
+                walker(ask_port, collapsed_loc, old_end, ask_ports, data,
+                       ask_runtime);
             }
 
             return res;
@@ -1088,7 +1093,8 @@ static void walk_ports_recurse(const Port& p, char* name_buffer,
         {
             // check if the port is disabled by a switch
             enabled = port_is_enabled(&p, name_buffer, buffer_size,
-                                      base, runtime, true, walker, data);
+                                      base, runtime, true, walker, data,
+                                      r.obj);
             runtime = r.obj; // callback has stored the pointer of p here
         }
     }
